@@ -532,7 +532,8 @@ class C05(PropBase):
                 "first frame = context; every later frame has return address >= 4096, instruction = return address - adjustment, trust in "
                 "{cfi, frame_pointer, scan}; stack pointers strictly increase (equality only between the first two frames on ARM/ARM64/MIPS); "
                 "a scan frame's return address is the word just below its sp inside the stack memory; module lookups cover the address (from C08); "
-                "no panic site of the walker is reachable; and the C03 frame bound: at most |stack bytes| + 2 frames, fuel |stack| + 3 suffices. "
+                "no panic site of the walker is reachable; the C03 frame bound: at most |stack bytes| + 2 frames, fuel |stack| + 3 suffices; "
+                "ptr_auth_strip mask soundness; the CFI-oracle contract proved for C06's model of the real CfiStackWalker. "
                 "The model is tied to the code by running minidump_unwind::walk_stack and the extracted model on generated adversarial and "
                 "well-formed stacks in debug and release builds; an independent oracle evaluates the invariants on the implementation's frames.",
         "note": "Trusted: Coq kernel; hand-written model (correspondence-checked, not verified against rustc semantics); the CFI/WIN evaluation "
